@@ -9,6 +9,8 @@ schedule (pairs = (lock name, key), numbered by first appearance):
     hist
     inv <id> <method> <pair>     lock.Grant | lock.Unlock | sess.AddLock | sess.RemoveLock (manager calls of the server)
     ret <id> <ok 0|1>
+    inv <id> sess.DestroySession -
+    ret <id> <ok> <pair,…|->      the holds `sessionManager.DestroySession` returned (the ended session's entry)
     trunc                        the file image became empty   (store.Write: Truncate(0))
     write                        the file image became non-empty (store.Write: Write + Sync)
     ack grant <pair>             the Lock / TryLock answer left the server
@@ -23,7 +25,7 @@ enabled when it leaves.  Output: `ok` or `reject <event>`.
 namespace Ldlm.Driver.CrashLin
 open Ldlm.Crash
 
-inductive Meth | grant | unlock | addLock | removeLock
+inductive Meth | grant | unlock | addLock | removeLock | destroy
 deriving DecidableEq, Repr
 
 structure Pend where
@@ -31,6 +33,7 @@ structure Pend where
   m : Meth
   p : Pair
   stepped : Bool      -- its model step has been taken
+  ps : List Pair := []  -- destroy: the entry the model step removed (compared with the call's result at `ret`)
 deriving DecidableEq, Repr
 
 structure KCfg where
@@ -44,16 +47,29 @@ def actOf (m : Meth) (p : Pair) : Act :=
   | .unlock => .tableDel p
   | .addLock => .bookAdd p
   | .removeLock => .bookDel p
+  | .destroy => .destroy []
+
+def sublists : List Pair → List (List Pair)
+  | [] => [[]]
+  | x :: xs => let r := sublists xs; r ++ r.map (x :: ·)
+
+def sameSet (a b : List Pair) : Bool := a.all (· ∈ b) && b.all (· ∈ a)
 
 /-- take the model step of one pending call -/
 def expand (c : KCfg) : List KCfg :=
   -- a lease timer may fire at any time (the history does not say when)
   (c.st.held.filterMap fun p =>
     if p ∈ c.st.expiring then none else (step c.st (.expire p)).map fun s' => { c with st := s' }) ++
-  c.pend.filterMap fun q =>
-    if q.stepped then none else
+  (c.pend.filterMap fun q =>
+    if q.stepped ∨ q.m = .destroy then none else
     (step c.st (actOf q.m q.p)).map fun s' =>
-      { st := s', pend := c.pend.map fun r => if r.id = q.id then { r with stepped := true } else r }
+      { st := s', pend := c.pend.map fun r => if r.id = q.id then { r with stepped := true } else r }) ++
+  -- a session end removes SOME set of recorded holds (the history names it only when the call returns)
+  c.pend.flatMap fun q =>
+    if q.stepped ∨ q.m ≠ .destroy then [] else
+    (sublists c.st.book).filterMap fun ps =>
+      (step c.st (.destroy ps)).map fun s' =>
+        { st := s', pend := c.pend.map fun r => if r.id = q.id then { r with stepped := true, ps := ps } else r }
 
 def addNew (acc : List KCfg) (cs : List KCfg) : List KCfg × List KCfg :=
   cs.foldl (fun (p : List KCfg × List KCfg) c => if p.1.contains c then p else (p.1 ++ [c], p.2 ++ [c])) (acc, [])
@@ -67,16 +83,28 @@ def closure : Nat → List KCfg → List KCfg → List KCfg
 
 def parseMeth (s : String) : Option Meth :=
   if s = "lock.Grant" then some .grant else if s = "lock.Unlock" then some .unlock
-  else if s = "sess.AddLock" then some .addLock else if s = "sess.RemoveLock" then some .removeLock else none
+  else if s = "sess.AddLock" then some .addLock else if s = "sess.RemoveLock" then some .removeLock
+  else if s = "sess.DestroySession" then some .destroy else none
 
 def pairOf (n : Nat) : Pair := (n, n)
 
 def event (cfgs : List KCfg) (ws : List String) : Option (List KCfg) :=
   match ws with
   | ["inv", id, m, p] =>
-    match id.toNat?, parseMeth m, p.toNat? with
-    | some id, some m, some p => some (cfgs.map fun c => { c with pend := c.pend ++ [⟨id, m, pairOf p, false⟩] })
+    match id.toNat?, parseMeth m, (if p = "-" then some 0 else p.toNat?) with
+    | some id, some m, some p => some (cfgs.map fun c => { c with pend := c.pend ++ [⟨id, m, pairOf p, false, []⟩] })
     | _, _, _ => none
+  | ["ret", id, _, ps] =>
+    -- the session end returns after its rewrite has finished; the entry it removed is the one it reports
+    match id.toNat? with
+    | none => none
+    | some id =>
+      let want := if ps = "-" then [] else (ps.splitOn ",").filterMap (·.toNat?) |>.map pairOf
+      some ((closure 32 cfgs cfgs).filterMap fun c =>
+        match c.pend.find? (·.id = id) with
+        | none => none
+        | some q =>
+          if q.m = .destroy ∧ q.stepped ∧ ¬ c.st.unsaved ∧ sameSet q.ps want then some { c with pend := c.pend.filter (·.id ≠ id) } else none)
   | ["ret", id, ok] =>
     match id.toNat? with
     | none => none
@@ -91,7 +119,7 @@ def event (cfgs : List KCfg) (ws : List String) : Option (List KCfg) :=
           | .grant | .unlock =>
             -- a table call that reports success has taken its step; one that reports failure has not
             if q.stepped = (ok == "1") then some { c with pend := rest } else none
-          | .addLock | .removeLock =>
+          | .addLock | .removeLock | .destroy =>
             -- the bookkeeping call returns after its rewrite of the file has finished
             if q.stepped ∧ ¬ c.st.unsaved then some { c with pend := rest } else none)
   | ["trunc"] => some ((closure 32 cfgs cfgs).filterMap fun c => (step c.st .truncate).map fun s' => { c with st := s' })
